@@ -13,7 +13,7 @@ From Coq Require Import ZArith QArith Qabs List Bool Lia Permutation Sorting.Sor
 From Knut Require Import Model.Str Model.Dec Model.Date Model.Account Model.Ledger Model.Price
      Model.Journal Model.Check Model.Pipeline Model.Table Model.Report Model.Cli
      Spec.DateSpec Spec.WellformedSpec Spec.LedgerSpec Spec.LedgerSyntax Spec.MarkToMarketSpec
-     Spec.PriceSpec Spec.PriceDaySpec
+     Spec.PriceSpec Spec.PriceDaySpec Spec.MarkToMarketReportSpec
      Proofs.DecProofs Proofs.DecValue Proofs.CheckLemmas Proofs.CheckProofs Proofs.PairProofs
      Proofs.ReportSum Proofs.Conservation Proofs.DateProofs Proofs.BeancountProofs
      Proofs.LedgerProofs Proofs.CloseProofs Proofs.PriceDayProofs Proofs.ValuationProofs
@@ -280,12 +280,6 @@ Qed.
 
 (* ------------------------------------------------------------ Part C: the query on one account *)
 
-(* the report shows account a as itself: no mapping rule shortens it or anything onto it, no remap
-   swaps it (in particular: no --mapping and no --remap) *)
-Definition shows_account (cfg : balance_cfg) (a : account) : Prop :=
-  forall b, account_ok b = true ->
-  exists b', shorten (bc_mapping cfg) (remap (bc_remap cfg) b) = ShAcc b' /\ acc_eqb b' a = acc_eqb b a.
-
 Lemma rxs_match_nil s : rxs_match [] s = false.
 Proof. reflexivity. Qed.
 
@@ -331,10 +325,6 @@ Proof.
 Qed.
 
 (* ------------------------------------------------------------ Part D: assembly *)
-
-(* the days the balance command builds from a loaded journal *)
-Definition built_days (close : bool) (dl : list directive) (part : partition) : list day :=
-  b_days (if close then builder_touch (builder_of dl) (start_dates part) else builder_of dl).
 
 Lemma built_days_perm close dl part : Permutation (dposts (built_days close dl part)) (flat_postings dl).
 Proof.
